@@ -147,7 +147,17 @@ fn device_consts(dd: &DiskDevice)
     assert(c.0 <= t.0); // @ob C01.device_consts.default_suffix_len_le_threshold
 }
 
-// ---- whole body of the hashing closure of group_by_prefix: the new key of the file
+''')
+
+    NOP = (("|_| {}", "|_verif_unused: usize| {}"),)   # Verus does not accept a wildcard closure parameter
+    BR = (("|bytes_read| progress", "|bytes_read: usize| progress"),)
+
+    # Every slice below is optional: if its anchors are lost it is left out and only its own obligations are undecided.
+    # structural anchor of a stage closure: it is the 6th argument of `rehash(` in the stage function
+    def s_prefix():
+        fn = g.item("fn group_by_prefix(")
+        body = g.block_contents(g.call_arg(fn, "rehash", 5))
+        ub.spec('''// ---- whole body of the hashing closure of group_by_prefix: the new key of the file
 fn prefix_closure(ctx: &Ctx, fi: &FileInfo, prefix_len: FileLen, progress: &Progress) -> (r: Option<FileHash>)
     requires fi.dev_idx() < ctx.devices.len(),
     ensures
@@ -157,46 +167,54 @@ fn prefix_closure(ctx: &Ctx, fi: &FileInfo, prefix_len: FileLen, progress: &Prog
 {
     broadcast use min_filelen, max_filelen;
 ''')
-    fn = g.item("fn group_by_prefix(")
-    # structural anchor: the hashing closure is the 6th argument of `rehash(`; its statements up to `let chunk = ..;`
-    # `|_| {}` (Verus does not accept a wildcard closure parameter) is renamed to a named, typed parameter
-    NOP = (("|_| {}", "|_verif_unused: usize| {}"),)
-    ub.piece(Piece(g.block_contents(g.call_arg(fn, "rehash", 5)), renames=NOP))
-    ub.spec('''
-}
+        ub.piece(Piece(body, renames=NOP))
+        ub.spec("\n}\n\n")
+    ub.optional("hashing closure of group_by_prefix", s_prefix,
+                prefixes=["C15.stage.prefix", "C01.stage_chunks.small_files"])
 
-// ---- expression slice: length condition of the pre-filter of group_by_contents
+    def s_contents_filter():
+        fnc = g.item("fn group_by_contents(")
+        e = g.expr(fnc, "g.file_len >= min_file_len")
+        ub.spec('''// ---- expression slice: length condition of the pre-filter of group_by_contents
 fn contents_prefilter_len(g: &FileGroupHdr, min_file_len: FileLen) -> (r: bool)
     ensures r == (g.file_len.0 >= min_file_len.0), // @ob C01.stage_chunks.contents_stage_takes_every_len_ge_min
 {
     ''')
-    fnc = g.item("fn group_by_contents(")
-    ub.piece(Piece(g.expr(fnc, "g.file_len >= min_file_len")))
-    ub.spec('''
-}
+        ub.piece(Piece(e))
+        ub.spec("\n}\n\n")
+    ub.optional("pre-filter of group_by_contents", s_contents_filter, prefixes=["C01.stage_chunks.contents_stage_takes"])
 
-// ---- whole body of the hashing closure of group_by_contents: the final key of the file
+    def s_contents():
+        fnc = g.item("fn group_by_contents(")
+        body = g.block_contents(g.call_arg(fnc, "rehash", 5))
+        ub.spec('''// ---- whole body of the hashing closure of group_by_contents: the final key of the file
 fn contents_closure(ctx: &Ctx, fi: &FileInfo, progress: &Progress) -> (r: Option<FileHash>)
     ensures
         r is Some <==> readable(), // @ob C15.stage.contents_unreadable_file_is_never_reported
         r is Some ==> r->Some_0 == chunk_hash(0, fi.len.0), // @ob C01.stage_chunks.contents_stage_hashes_whole_file
 {
 ''')
-    ub.piece(Piece(g.block_contents(g.call_arg(fnc, "rehash", 5)), renames=(("|bytes_read| progress", "|bytes_read: usize| progress"),)))
-    ub.spec('''
-}
+        ub.piece(Piece(body, renames=BR))
+        ub.spec("\n}\n\n")
+    ub.optional("hashing closure of group_by_contents", s_contents,
+                prefixes=["C15.stage.contents", "C01.stage_chunks.contents_stage_hashes"])
 
-// ---- expression slice: length condition of the pre-filter of group_by_suffix
+    def s_suffix_filter():
+        fns = g.item("fn group_by_suffix(")
+        e = g.expr(fns, "g.file_len >= suffix_threshold")
+        ub.spec('''// ---- expression slice: length condition of the pre-filter of group_by_suffix
 fn suffix_prefilter_len(g: &FileGroupHdr, suffix_threshold: FileLen) -> (r: bool)
-    ensures r == (g.file_len.0 >= suffix_threshold.0),
+    ensures r == (g.file_len.0 >= suffix_threshold.0), // @ob C01.stage_chunks.suffix_stage_admits_only_len_ge_threshold
 {
     ''')
-    fns = g.item("fn group_by_suffix(")
-    ub.piece(Piece(g.expr(fns, "g.file_len >= suffix_threshold")))
-    ub.spec('''
-}
+        ub.piece(Piece(e))
+        ub.spec("\n}\n\n")
+    ub.optional("pre-filter of group_by_suffix", s_suffix_filter, prefixes=["C01.stage_chunks.suffix_stage_admits"])
 
-// ---- whole body of the hashing closure of group_by_suffix. The pre-filter (above) admits only groups with
+    def s_suffix():
+        fns = g.item("fn group_by_suffix(")
+        body = g.block_contents(g.call_arg(fns, "rehash", 5))
+        ub.spec('''// ---- whole body of the hashing closure of group_by_suffix. The pre-filter (above) admits only groups with
 // file_len >= suffix_threshold, and every file of a group has fi.len == g.file_len (rehash, assumed). `suffix_len` is
 // whatever group_by_suffix computed: --max-suffix-size if given, else the device default. The new key combines the old
 // one with the hash of a chunk that ends at the end of the file; an unreadable file gets NO key (it is dropped).
@@ -207,22 +225,25 @@ fn suffix_closure(ctx: &Ctx, fi: &FileInfo, old_hash: FileHash, suffix_len: File
 {
     broadcast use min_filelen, max_filelen;
 ''')
-    ub.piece(Piece(g.block_contents(g.call_arg(fns, "rehash", 5)), renames=NOP))
-    ub.spec('''
-}
+        ub.piece(Piece(body, renames=NOP))
+        ub.spec("\n}\n\n")
+    ub.optional("hashing closure of group_by_suffix", s_suffix, prefixes=["C15.stage.suffix"])
 
-// ---- statements of the same closure up to the construction of the chunk: where the suffix chunk lies
+    def s_suffix_chunk():
+        fns = g.item("fn group_by_suffix(")
+        sl = g.block_until_stmt(g.call_arg(fns, "rehash", 5), "let chunk = FileChunk::new(")
+        ub.spec('''// ---- statements of the same closure up to the construction of the chunk: where the suffix chunk lies
 fn suffix_slice<'a>(fi: &'a FileInfo, suffix_len: FileLen, suffix_threshold: FileLen, progress: &Progress) -> (chunk: FileChunk<'a>)
     requires fi.len.0 >= suffix_threshold.0,
     ensures chunk.pos.0 + chunk.len.0 == fi.len.0, // @ob C01.stage_chunks.suffix_chunk_ends_at_end_of_file
 {
     broadcast use min_filelen, max_filelen;
 ''')
-    ub.piece(Piece(g.block_until_stmt(g.call_arg(fns, "rehash", 5), "let chunk = FileChunk::new(")))
-    ub.spec('''
-    chunk
-}
+        ub.piece(Piece(sl))
+        ub.spec("\n    chunk\n}\n\n")
+    ub.optional("chunk of group_by_suffix", s_suffix_chunk, prefixes=["C01.stage_chunks.suffix_chunk"])
 
+    ub.spec('''
 // ---- lemma over the contracts above: for every file length and every prefix length, the whole file is hashed in
 // the prefix stage (len <= prefix_len) or the contents stage admits it (len >= min_file_len, and group_files passes
 // min_file_len = prefix_len) and hashes it whole.
